@@ -14,6 +14,9 @@ rsync -a --delete --exclude target --exclude .git /repo/ "$MT/repo/"
 if [ "$PATCH" != "-" ]; then
   (cd "$MT/repo" && patch -p1 --no-backup-if-mismatch < "$PATCH" >/dev/null) || { echo "PATCH-FAILED"; exit 2; }
 fi
+# rsync preserves mtimes: make every source newer than any artifact left in this slot by an earlier
+# (differently patched) run, or cargo would link the stale build
+find "$MT/repo/src" -type f -exec touch {} +
 rsync -a --delete --exclude target /verif/harness/ "$MT/h/"
 sed -i "s#path = \"/repo\"#path = \"$MT/repo\"#" "$MT/h/Cargo.toml"
 sed -i "s#target-dir = \"/verif/target\"#target-dir = \"$MT/target\"#" "$MT/h/.cargo/config.toml"
@@ -22,6 +25,10 @@ cp /verif/KNOWN_FINDINGS.txt /verif/properties.jsonl "$MT/root/"
 mkdir -p "$MT/root/harness" "$MT/root/evidence"
 (cd "$MT/h" && CARGO_TARGET_DIR="$MT/target" cargo build --offline --release --bin "$BIN" 2>&1 | grep -E "^error" -A 8 | head -30)
 [ -x "$MT/target/release/$BIN" ] || { echo "BUILD-FAILED"; exit 2; }
+case "$ID" in C01|C02|C03|C05)
+  (cd "$MT/h" && CARGO_TARGET_DIR="$MT/target" cargo build --offline --profile devopt --bin "$BIN" 2>&1 | grep -E "^error" -A 8 | head -30)
+  [ -x "$MT/target/devopt/$BIN" ] && export VERIF_DEVOPT_BIN="$MT/target/devopt/$BIN";;
+esac
 export VERIF_ROOT="$MT/root"
 case "$ID" in C12|C20) export VERIF_CLOCK_SHIM=/verif/shim/libverifclock.so;; esac
 cd "$MT/root" && "$MT/target/release/$BIN" "$@"
